@@ -128,10 +128,19 @@ def gen(r, **kw):
     return Gen(r, **kw).value(0)
 
 
-def build(recipe, pt_class=Pt):
+def build(recipe, pt_class=Pt, perm=0):
     """Recipe -> Python value (containers created on first visit, filled afterwards, so
-    ['ref', id] to an enclosing container gives a recursive structure)."""
+    ['ref', id] to an enclosing container gives a recursive structure).  perm != 0: the
+    members of every dict / set are built in recipe order (so references resolve identically)
+    but *inserted* in an order shuffled by (perm, container id)."""
+    import random
     made = {}
+
+    def order(n, cid):
+        idx = list(range(n))
+        if perm:
+            random.Random(perm * 1000003 + cid).shuffle(idx)
+        return idx
 
     def mk(rc):
         t = rc[0]
@@ -171,18 +180,20 @@ def build(recipe, pt_class=Pt):
         if t == 'dict':
             v = {}
             made[rc[2]] = v
-            for k, x in rc[1]:
-                kk = mk(k)
+            pairs = [(mk(k), mk(x)) for k, x in rc[1]]
+            for i in order(len(pairs), rc[2]):
+                kk, xx = pairs[i]
                 try:
-                    v[kk] = mk(x)
+                    v[kk] = xx
                 except TypeError:
-                    v[repr(kk)] = mk(x)
+                    v[repr(kk)] = xx
             return v
         if t == 'set':
             v = set()
             made[rc[2]] = v
-            for x in rc[1]:
-                v.add(mk(x))
+            members = [mk(x) for x in rc[1]]
+            for i in order(len(members), rc[2]):
+                v.add(members[i])
             return v
         raise ValueError(t)
     return mk(recipe)
